@@ -86,7 +86,7 @@ static PieceCount toPC(const std::vector<int>& pcs) {
 
 int main(int argc, char** argv) {
     Worker w(argc, argv); W = &w;
-    br::initTexel();
+    br::initTexel(); evs::check();
     std::string part = w.args.get("part", "tb");
     R.part = part;
     std::vector<int> depths; { std::istringstream is(w.args.get("depths", "1,2,3,4")); std::string t; while (std::getline(is, t, ',')) depths.push_back(atoi(t.c_str())); }
